@@ -170,7 +170,11 @@ func c04Guard(c *Ctx) {
 		c.Op(fmt.Sprintf("new %d", t0), "ok")
 		stableT := t0
 		var inCache = map[int]bool{} // ground truth maintained by the oracle below (which blocks SaveBlock accepted and no prune dropped)
-		root := w.newBlock(nil, uint32(rnd.Intn(50)), t0, nil)
+		rootH := uint32(0)
+		if rnd.Intn(2) == 0 {
+			rootH = uint32(rnd.Intn(50))
+		}
+		root := w.newBlock(nil, rootH, t0, nil)
 		save := func(b *c04Blk) {
 			out := Safe(func() string { g.SaveBlock(b.b); return "ok" })
 			c.Op(fmt.Sprintf("save %d", b.id), out)
@@ -180,6 +184,13 @@ func c04Guard(c *Ctx) {
 		save(root)
 		stable := root
 		tips := []*c04Blk{root}
+		if rnd.Intn(4) == 0 {
+			// a second genesis: GetTxsByBranch must report ErrDifferentGenesis
+			r2 := w.newBlock(nil, 0, t0+uint32(rnd.Intn(100)), nil)
+			save(r2)
+			tips = append(tips, r2)
+			c.Count("g:second-root")
+		}
 		// txs that may be replayed
 		var seen []*c04Tx
 		mkTxs := func(time uint32) []*c04Tx {
@@ -360,7 +371,11 @@ func c04Guard(c *Ctx) {
 					return "ok " + f(t1) + "|" + f(t2)
 				})
 				c.Op(fmt.Sprintf("branch %d %d", a.id, b.id), out)
-				c.Count("g:branch:" + firstWord(out))
+				if firstWord(out) == "err" {
+					c.Count("g:branch:" + out)
+				} else {
+					c.Count("g:branch:" + firstWord(out))
+				}
 			default: // restart: rebuild the guard the way chain.initTxPool does from the stable chain
 				c.Count("g:restart")
 				old := g
